@@ -616,6 +616,16 @@ func unknownInsertion(c *explore.Ctx) {
 				out = append(out, u.enc(n))
 			}
 		}
+		// runs: the same undeclared number two and three times in a row (a repeated field of a newer schema),
+		// with the same and with another wire form, and two different undeclared numbers in a row
+		n0 := nums[0]
+		for i, u := range unknowns {
+			v := unknowns[(i+1)%len(unknowns)]
+			out = append(out, append(u.enc(n0), u.enc(n0)...), append(append(u.enc(n0), v.enc(n0)...), u.enc(n0)...))
+			if len(nums) > 1 {
+				out = append(out, append(u.enc(n0), u.enc(nums[1])...))
+			}
+		}
 		return out
 	}
 	vars := insertions(e, t.msg, mk, 2)
@@ -821,7 +831,7 @@ func Spec() *explore.Spec {
 			{Name: "mutations", ShardDepth: 2, Body: mutations, Doc: "valid encodings of boundary values: every prefix, every (position x 256) corruption, every byte replaced by special varints (0,1,127,128,2^31-1,2^32,2^63,2^64-1, 11-byte)"},
 			{Name: "depth-ladder", ShardDepth: 3, HangSeconds: 300, MaxWorkers: 8, Body: depthLadder, Doc: "messages nested 100 ... 4,000,000 deep by the sender through a pointer field, a repeated field and a map value of a recursive message type, complete and cut by one byte: an error or a value, no stack overflow"},
 			{Name: "repeated-growth", ShardDepth: 2, Body: repeatedGrowth, Doc: "repeated fields of 8 element kinds (varint, fixed, string, bytes, message, pointer to message, inside a map value, inside a nested message) receiving 0..12, 16, 20..24, 33, 100, 1000 elements: decodes, keeps every element, and allocates within the bound (the backing array is regrown geometrically)"},
-			{Name: "unknown-insertion", ShardDepth: 2, Body: unknownInsertion, Doc: "one unknown field (4 numbers x 8 wire forms) inserted at every top-level and nested field boundary of valid encodings; decoded value must not change"},
+			{Name: "unknown-insertion", ShardDepth: 2, Body: unknownInsertion, Doc: "one unknown field (4 numbers x 8 wire forms), and runs of two and three unknown fields (the same number in the same and in another wire form, two numbers), inserted at every top-level and nested field boundary of valid encodings; decoded value must not change"},
 		},
 		Rule: "exhaustive short inputs and complete mutation sets of valid encodings per target type; distinct non-trivial = distinct (target, mode/encoding) blocks",
 		Assumptions: []string{
